@@ -112,15 +112,18 @@ Eval vm_compute in ("c06_inverse_names_are"%string, c06_inverse_names).
    on ANY library gate g that no definition shadows collapses to a count p (the product of the |k|) and a flag inv (the parity
    of the `inv`s and the negative k); unroll() emits p copies of what the operation tables lower g -- or, when inv holds, the
    inverse of g -- to (`lower_app`, computed from the tables as the visitor does: self-inverse gates stay, s <-> sdg, t <-> tdg,
-   rotations negate their angle, cnot gives cx, u3 its rz / rx sequence, ...); pow(0) emits nothing.  One statement, any modifier list, any state that holds the registers: *)
-Theorem C06_modified_basis_gate_unrolls_to_repetitions check_only visit_rec call_rec env s mods name args vs qs bss p inv tgs sts :
-  Regs env s -> smemk name (gates s) = false -> cmods mods 1 false = Some (p, inv) -> (p < 10000)%Z ->
-  mapM (opnd_bits (e_q env)) qs = Some bss -> distinctb [] (List.concat bss) = true ->
-  lower_app env name vs (List.concat bss) inv = Some (tgs, sts) -> cparams args = Some vs ->
+   rotations negate their angle, cnot gives cx, u3 its rz / rx sequence, ...); pow(0) emits nothing.  One statement, any modifier list, any state that holds the registers and satisfies an invariant P that depth
+   bookkeeping does not disturb and relative to which the operands resolve to `bits` and the parameters evaluate to `vs`
+   (P = True at the top level; P = the loop variable holds v inside a loop body, Lang/LoopModProofs.v): *)
+Theorem C06_modified_basis_gate_unrolls_to_repetitions check_only visit_rec call_rec (P : st -> Prop)
+  (P_DE : forall s s', P s -> DE s s' -> P s') env s mods name args vs qs bits p inv tgs sts :
+  Regs env s -> P s -> smemk name (gates s) = false -> cmods mods 1 false = Some (p, inv) -> (p < 10000)%Z ->
+  resolves call_rec P env qs bits ->
+  lower_app env name vs bits inv = Some (tgs, sts) -> evaluates call_rec P args vs ->
   exists s1, visit_generic_gate check_only [] visit_rec call_rec mods name args qs s
              = Ok ((if check_only then [] else copies (Z.to_nat p) (List.concat sts)), s1) /\ DE s s1 /\
              Dstep s s1 (copies (Z.to_nat p) (map (map Qr) tgs)).
-Proof. exact (modified_gate_fix check_only visit_rec call_rec env s mods name args vs qs bss p inv tgs sts). Qed.
+Proof. exact (modified_gate_fix check_only visit_rec call_rec P P_DE env s mods name args vs qs bits p inv tgs sts). Qed.
 Print Assumptions C06_modified_basis_gate_unrolls_to_repetitions.
 
 (* the count and the flag do not depend on the order of the modifiers *)
